@@ -125,6 +125,27 @@ func snapshotTree(root string, skip string) string {
 	return strings.Join(items, "\n")
 }
 
+// wellFormedEntry: the file is a JSON object whose base field is a CRL and whose delta field, if there is one, is a CRL too
+// (decided here independently of the code under test)
+func wellFormedEntry(b []byte) bool {
+	var c struct {
+		BaseCRL  *[]byte `json:"baseCRL"`
+		DeltaCRL *[]byte `json:"deltaCRL"`
+	}
+	if json.Unmarshal(b, &c) != nil || c.BaseCRL == nil {
+		return false
+	}
+	if _, err := x509.ParseRevocationList(*c.BaseCRL); err != nil {
+		return false
+	}
+	if c.DeltaCRL != nil {
+		if _, err := x509.ParseRevocationList(*c.DeltaCRL); err != nil {
+			return false
+		}
+	}
+	return true
+}
+
 func corruptFile(path string, kind string) {
 	b, err := os.ReadFile(path)
 	if err != nil {
@@ -133,6 +154,11 @@ func corruptFile(path string, kind string) {
 	var c map[string]json.RawMessage
 	_ = json.Unmarshal(b, &c)
 	write := func(x []byte) { must(os.WriteFile(path, x, 0600)) }
+	if !wellFormedEntry(b) {
+		// already broken: it stays broken whatever else is done to it (some corruptions are their own inverse - a second
+		// bit flip or field swap would repair the file)
+		return
+	}
 	if len(b) == 0 && kind != "foreignJSON" && kind != "baseNotDER" && kind != "deltaNotDER" && kind != "deltaEmpty" {
 		// already an empty (broken) file: it stays broken whatever else is done to it
 		write([]byte("\x00"))
